@@ -416,6 +416,25 @@ def r4_pseudo(ctx, F):
     root_ins = [c for c in ins if "self.root_inode" in R(rv.call_args(c)[2], rb, rv)]
     ctx.check(rule, "restore/root-reused", len(root_ins) == 1 and R(rv.call_args(root_ins[0])[1], rb, rv) == "self.root_inode.ino",
               "PseudoFs::restore_from_state must register the existing root inode under its own number", loc=rb.loc())
+    # every rebuilt inode is registered under its own number, unconditionally inside the rebuilding loop
+    reg = [c for c in ins if c not in root_ins]
+    ok = len(reg) == 1 and len(nw) == 1 and rb.dominates(nw[0].bb, reg[0].bb)
+    if ok:
+        a = [R(x, rb, rv) for x in rv.call_args(reg[0])]
+        g0 = [(R(x, rb, rv), l) for (x, l, u) in rv.guards(nw[0].bb)]
+        g1 = [(R(x, rb, rv), l) for (x, l, u) in rv.guards(reg[0].bb)]
+        ok = a[1].endswith(".ino") and "PseudoInode::new(" in a[2] and "PseudoInode::new(" in a[1] and not [x for x in g1 if x not in g0 and not x[0].startswith("discr(")]
+    ctx.check(rule, "restore/each-inode-registered", ok, "PseudoFs::restore_from_state must enter every rebuilt inode into the map under its own number", loc=rb.loc())
+    # the version map the snapshot is written and read with names the state type at version 1
+    vm = [b_ for k_, b_ in F.fns.items() if k_.endswith("PseudoFs>::get_version_map")]
+    if len(vm) == 1:
+        sv = [c for c in live_calls(vm[0]) if c.name == "set_type_version"]
+        ok = len(sv) == 1
+        if ok:
+            vv = vf.VF(vm[0], inline_depth=0)
+            a = [R(x, vm[0], vv) for x in vv.call_args(sv[0])]
+            ok = "PseudoFsState" in a[1] and a[2] == "1" and "VersionMap::new()" in R(vv.ret(), vm[0], vv)
+        ctx.check(rule, "version-map", ok, "PseudoFs::get_version_map must register PseudoFsState at version 1 in the map it returns", loc=vm[0].loc())
     ctx.floor(rule, 11)
 
 
